@@ -488,6 +488,8 @@ def op_verify(ctx, op):
         ctx.stats['abstain']['frame_mutated_by_other_client'] += 1
         return
     ctx.stats['checks']['closure_verifications'] += 1
+    ctx.states.add('%s|V|%s|%s' % (gf.frame_signature(spec),
+                                   op.get('via'), op.get('repair', True)))
     tag = '%s/%s' % (op.get('via', 'dict'),
                      'repair' if op.get('repair', True) else 'norepair')
     if outcome == 'exc':
@@ -592,6 +594,9 @@ def op_detect(ctx, op):
 
     if ctx.prop == 'C01':
         if not rec.get('discovered'):
+            if fingerprint(df) != fingerprint(before_df):
+                ctx.stats['faults']['shared_frame_mutated_by_other_client'] \
+                    += 1
             return
         if not all_recognised(spec):
             ctx.stats['abstain']['unrecognised_column_types'] += 1
@@ -600,6 +605,8 @@ def op_detect(ctx, op):
             ctx.stats['abstain']['frame_mutated_by_other_client'] += 1
             return
         ctx.stats['checks']['closure_detections'] += 1
+        ctx.states.add('%s|T|%s|%s' % (gf.frame_signature(spec),
+                                       op.get('via'), sorted(kw)))
         tag = '%s/%s' % (op.get('via', 'dict'),
                          'norepair' if kw.get('repair') is False
                          else 'repair')
@@ -630,6 +637,9 @@ def op_detect(ctx, op):
 
 
 def op_stale_output(ctx, op):
+    if 'path_cwd' in op:
+        from machines import constraints_cli
+        return constraints_cli.op_stale_cwd(ctx, op)
     p = ctx.W.path('data', op['path'])
     with io.open(p, 'w', encoding='utf-8') as f:
         f.write(op['junk'])
@@ -998,6 +1008,9 @@ def op_roundtrip(ctx, op):
     existed = os.path.exists(path)
     if existed:
         ctx.stats['probes']['overwrites_existing_file'] += 1
+        if os.path.getsize(path) > len(cs_text(rec, tddafile=tf).encode(
+                'utf-8')):
+            ctx.stats['faults']['shorter_content_over_longer_file'] += 1
     texts = []
     loaded = None
     try:
@@ -1278,11 +1291,16 @@ def op_write_table(ctx, op):
     return constraints_cli.op_write_table(ctx, op)
 
 
+def op_write_cs(ctx, op):
+    from machines import constraints_cli
+    return constraints_cli.op_write_cs(ctx, op)
+
+
 OPS = {'discover': op_discover, 'handwritten': op_handwritten,
        'verify': op_verify, 'detect': op_detect,
        'stale_output': op_stale_output, 'roundtrip': op_roundtrip,
        'verdicts': op_verdicts, 'noise': op_noise, 'cli': op_cli,
-       'write_table': op_write_table}
+       'write_table': op_write_table, 'write_cs': op_write_cs}
 
 
 # --------------------------------------------------------------------------
